@@ -39,6 +39,7 @@ type c11Beh struct {
 
 type c11Sent struct {
 	raw     []byte
+	headLen int // bytes of raw up to and including the blank line
 	method  string
 	uri     string
 	headers []string // "Name: value" in the order sent (Host first)
@@ -61,6 +62,7 @@ func c11Build(kind string, k int) c11Sent {
 			b.WriteString(h + "\r\n")
 		}
 		b.WriteString("\r\n")
+		s.headLen = b.Len()
 		if chunked {
 			fmt.Fprintf(&b, "%x\r\n%s\r\n0\r\n\r\n", len(body), body)
 		} else {
@@ -102,6 +104,40 @@ func c11Build(kind string, k int) c11Sent {
 		hdr("Content-Type", "application/x-www-form-urlencoded")
 		hdr("Content-Length", fmt.Sprint(len(s.body)))
 		finish("POST "+s.uri+" HTTP/1.1", []byte(s.body), false)
+	case "up", "over":
+		// a form body above the server's MaxRequestBodySize (c11SrvLimit): "up" is granted a larger
+		// limit for this request through Server.HeaderReceived, "over" is not
+		s.method = "POST"
+		s.uri = fmt.Sprintf("/%s%d", map[string]string{"up": "up", "over": "ov"}[kind], k)
+		s.body = fmt.Sprintf("x=%d&pad=%s", k, strings.Repeat("P", 2*c11SrvLimit))
+		s.post = []string{fmt.Sprintf("x=%d", k), "pad=" + strings.Repeat("P", 2*c11SrvLimit)}
+		hdr("Content-Type", "application/x-www-form-urlencoded")
+		hdr("Content-Length", fmt.Sprint(len(s.body)))
+		finish("POST "+s.uri+" HTTP/1.1", []byte(s.body), false)
+	case "pg":
+		// restricted to a 4-byte body through Server.HeaderReceived; carries none
+		s.method = "GET"
+		s.uri = fmt.Sprintf("/pg%d?a=%d", k, k)
+		s.query = []string{fmt.Sprintf("a=%d", k)}
+		finish("GET "+s.uri+" HTTP/1.1", nil, false)
+	case "cont":
+		// an ACCEPTED expectation: the body is sent right behind the head (a client may do so),
+		// the server answers 100 Continue and then reads it
+		s.method = "POST"
+		s.uri = fmt.Sprintf("/ct%d", k)
+		s.body = fmt.Sprintf("x=%d&y=2", k)
+		s.post = []string{fmt.Sprintf("x=%d", k), "y=2"}
+		hdr("Expect", "100-continue")
+		hdr("Content-Type", "application/x-www-form-urlencoded")
+		hdr("Content-Length", fmt.Sprint(len(s.body)))
+		finish("POST "+s.uri+" HTTP/1.1", []byte(s.body), false)
+	case "contchunk":
+		s.method = "POST"
+		s.uri = fmt.Sprintf("/cc%d", k)
+		s.body = fmt.Sprintf("chunk-%d", k)
+		hdr("Expect", "100-continue")
+		hdr("Transfer-Encoding", "chunked")
+		finish("POST "+s.uri+" HTTP/1.1", []byte(s.body), true)
 	case "multipart":
 		s.method = "POST"
 		s.uri = fmt.Sprintf("/m%d", k)
@@ -154,6 +190,9 @@ func c11Build(kind string, k int) c11Sent {
 	}
 	return s
 }
+
+// c11SrvLimit is the Server's MaxRequestBodySize in the C11 replay (every ordinary body is smaller)
+const c11SrvLimit = 600
 
 type c11Snap struct {
 	K        int
@@ -279,7 +318,10 @@ type c11Result struct {
 	problems   []string
 }
 
-func c11RunHistory(b *c11Beh, rmu, stream, pipelined bool, baseline string) c11Result {
+// waitCont: a client that sent Expect: 100-continue (kinds cont / contchunk) holds its body back
+// until the server's 100 Continue has arrived, and only then sends it (pipelined: together with
+// everything that follows on that connection).
+func c11RunHistory(b *c11Beh, rmu, stream, pipelined, waitCont bool, baseline string) c11Result {
 	var res c11Result
 	var mu sync.Mutex
 	sent := make([]c11Sent, len(b.Hist)+1)
@@ -350,6 +392,17 @@ func c11RunHistory(b *c11Beh, rmu, stream, pipelined bool, baseline string) c11R
 		ReduceMemoryUsage: rmu,
 		StreamRequestBody: stream,
 		Logger:            csNopLogger{},
+		// per-request limits: they belong to the request they were chosen for
+		MaxRequestBodySize: c11SrvLimit,
+		HeaderReceived: func(h *RequestHeader) RequestConfig {
+			switch {
+			case bytes.HasPrefix(h.RequestURI(), []byte("/up")):
+				return RequestConfig{MaxRequestBodySize: 8 * c11SrvLimit}
+			case bytes.HasPrefix(h.RequestURI(), []byte("/pg")):
+				return RequestConfig{MaxRequestBodySize: 4}
+			}
+			return RequestConfig{}
+		},
 		ExpectHandler: func(ctx *RequestCtx) int {
 			if bytes.HasPrefix(ctx.Path(), []byte("/reject")) {
 				return StatusExpectationFailed
@@ -373,26 +426,63 @@ func c11RunHistory(b *c11Beh, rmu, stream, pipelined bool, baseline string) c11R
 		for idx < len(b.Hist) && b.Hist[idx].Conn == connNo {
 			idx++
 		}
+		isCont := func(k int) bool { return b.Hist[k-1].K == "cont" || b.Hist[k-1].K == "contchunk" }
+		// segs[j] is written in ONE write; segs[0] at once, segs[j>0] after the 100 Continue
+		// of the request that ended segs[j-1] has been read
+		var segs [][]byte
 		if pipelined {
-			// all requests of this connection in ONE write
-			var all []byte
+			var cur []byte
 			for k := first + 1; k <= idx; k++ {
 				if b.Hist[k-1].K == "abort" {
 					// an incomplete request is written on its own once the earlier responses were
 					// read (the server holds back buffered responses while it waits for a body)
 					continue
 				}
-				all = append(all, sent[k].raw...)
+				if waitCont && isCont(k) {
+					cur = append(cur, sent[k].raw[:sent[k].headLen]...)
+					segs = append(segs, cur)
+					cur = append([]byte(nil), sent[k].raw[sent[k].headLen:]...)
+					continue
+				}
+				cur = append(cur, sent[k].raw...)
 			}
-			if _, err := c.Write(all); err != nil {
+			segs = append(segs, cur)
+			c.SetWriteDeadline(time.Now().Add(20 * time.Second)) //nolint:errcheck
+			if _, err := c.Write(segs[0]); err != nil {
 				res.problems = append(res.problems, fmt.Sprintf("pipelined write on connection %d failed: %v", connNo, err))
 			}
+			segs = segs[1:]
 		}
 		for k := first + 1; k <= idx; k++ {
 			kind := b.Hist[k-1].K
 			if !pipelined || kind == "abort" {
-				if _, err := c.Write(sent[k].raw); err != nil {
+				w := sent[k].raw
+				if waitCont && isCont(k) {
+					w = w[:sent[k].headLen]
+				}
+				c.SetWriteDeadline(time.Now().Add(20 * time.Second)) //nolint:errcheck
+				if _, err := c.Write(w); err != nil {
 					res.problems = append(res.problems, fmt.Sprintf("write of request %d (%s) failed: %v", k, kind, err))
+					break
+				}
+			}
+			if waitCont && isCont(k) {
+				// the interim response first, then the body (pipelined: and all that follows)
+				c.SetReadDeadline(time.Now().Add(10 * time.Second)) //nolint:errcheck
+				// (read by hand: Response.Read itself skips an interim 100 response)
+				const cont = "HTTP/1.1 100 Continue\r\n\r\n"
+				if p, err := br.Peek(len(cont)); err != nil || string(p) != cont {
+					res.problems = append(res.problems, fmt.Sprintf("no 100 Continue for request %d (%s): got %q err %v", k, kind, p, err))
+					break
+				}
+				br.Discard(len(cont)) //nolint:errcheck
+				rest := sent[k].raw[sent[k].headLen:]
+				if pipelined {
+					rest, segs = segs[0], segs[1:]
+				}
+				c.SetWriteDeadline(time.Now().Add(20 * time.Second)) //nolint:errcheck
+				if _, err := c.Write(rest); err != nil {
+					res.problems = append(res.problems, fmt.Sprintf("write of the body of request %d (%s) failed: %v", k, kind, err))
 					break
 				}
 			}
@@ -403,11 +493,23 @@ func c11RunHistory(b *c11Beh, rmu, stream, pipelined bool, baseline string) c11R
 			}
 			c.SetReadDeadline(time.Now().Add(10 * time.Second)) //nolint:errcheck
 			var resp Response
-			if err := resp.Read(br); err != nil {
+			err := resp.Read(br)
+			if err == nil && resp.StatusCode() == StatusContinue && (kind == "cont" || kind == "contchunk") {
+				resp.Reset() // the interim response to an accepted expectation; the final one follows
+				err = resp.Read(br)
+			}
+			if err != nil {
 				res.problems = append(res.problems, fmt.Sprintf("no response to request %d (%s): %v", k, kind, err))
 				break
 			}
 			wantStatus := map[string]int{"bad": 400, "reject": 417, "rejectnb": 417, "timeout": StatusRequestTimeout}[kind]
+			if kind == "over" && !stream {
+				// refused: the exact 4xx status is the ErrorHandler's business
+				wantStatus = 400
+				if sc := resp.StatusCode(); sc == StatusRequestEntityTooLarge {
+					wantStatus = sc
+				}
+			}
 			if wantStatus == 0 {
 				wantStatus = 299
 			}
@@ -425,7 +527,7 @@ func c11RunHistory(b *c11Beh, rmu, stream, pipelined bool, baseline string) c11R
 				res.diffs = append(res.diffs, fmt.Sprintf("response to request %d (%s): got %s, want %s", k, kind, got, want))
 				mu.Unlock()
 			}
-			if kind == "bad" || kind == "reject" || kind == "rejectnb" || kind == "hclose" {
+			if kind == "bad" || kind == "reject" || kind == "rejectnb" || kind == "hclose" || (kind == "over" && !stream) {
 				// the specification ends the connection here: a decision taken for this request
 				// (error, rejected expectation, handler close) must not linger on an open connection
 				wait := 5 * time.Second
@@ -524,7 +626,8 @@ func TestVerifC11CtxFresh(t *testing.T) {
 				if len(b.Hist) > 1 {
 					nontriv++
 				}
-				res := c11RunHistory(b, rmu, b.Stream, pipelined, base[[2]bool{rmu, b.Stream}])
+				waitCont := (i+len(b.Hist))%2 == 0
+				res := c11RunHistory(b, rmu, b.Stream, pipelined, waitCont, base[[2]bool{rmu, b.Stream}])
 				kinds := ""
 				for _, r := range b.Hist {
 					kinds += fmt.Sprintf("%s@%d ", r.K, r.Conn)
@@ -534,6 +637,9 @@ func TestVerifC11CtxFresh(t *testing.T) {
 					vfSample(vfRec{"history": kinds, "rmu": rmu, "stream": b.Stream, "pipelined": pipelined, "expect_dispatched": b.Dispatched, "dispatched": res.dispatched})
 				}
 				key := fmt.Sprintf("[%s] rmu=%v stream=%v pipelined=%v", strings.TrimSpace(kinds), rmu, b.Stream, pipelined)
+				if waitCont && strings.Contains(kinds, "cont") {
+					key += " waitCont"
+				}
 				switch {
 				case len(res.problems) > 0:
 					vfViol("C11:problem:"+key+": "+res.problems[0], res.problems[0], c)
